@@ -111,6 +111,7 @@ type node struct {
 	inbox  chan wireMsg
 	done   chan struct{}
 
+	obsMu     sync.Mutex // serialises observeKey
 	mu        sync.Mutex
 	sent      map[string]bool
 	got       []delivery
@@ -131,6 +132,10 @@ func (n *node) problem(f string, a ...any) {
 
 // observeKey records RemoteKey() and reports a change away from a non-zero key.
 func (n *node) observeKey() int {
+	// observations are serialised: a reader that is descheduled between reading the key and logging it
+	// would otherwise log an old value after a newer one (seen as "changed from K0 to none" at load 300)
+	n.obsMu.Lock()
+	defer n.obsMu.Unlock()
 	k := keyIndex(n.ch.RemoteKey())
 	n.mu.Lock()
 	defer n.mu.Unlock()
